@@ -50,6 +50,7 @@ type c18Entry struct {
 type c18Case struct {
 	Ops      []c18Op      `json:"ops"`
 	Inodes   [][]c18Entry `json:"inodes"`
+	Orphans  []bool       `json:"orphans"` // open-unlink-write-read sequences that behaved
 	Commit   []world.File `json:"commit"`
 	CommitOk bool         `json:"commitok"`
 	Crashed  string       `json:"crashed,omitempty"`
@@ -342,6 +343,51 @@ func (k *c18Kernel) do(o *c18Op, r *gen.Rand) {
 		if victim != 0 && r.Bool() {
 			k.forgetAll(victim)
 		}
+	case "orphan":
+		// the temporary file pattern: the file is unlinked while the kernel still holds its inode, and used on
+		o.Res = "skipped"
+		dir, name := splitPath(o.Path)
+		pino, pattr, e := k.walk(dir)
+		if e != "" || !pattr.Mode.IsDir() || o.Path == "" {
+			return
+		}
+		if _, _, err := k.lookup(pino, name, o.Path); err == nil {
+			return // the name is taken
+		}
+		cop := &fuseops.CreateFileOp{Parent: pino, Name: name, Mode: 0644}
+		if err := k.ops.CreateFile(ctx, cop); err != nil {
+			o.Res = "orphan-bad: create " + c18Err(err)
+			return
+		}
+		ino := cop.Entry.Child
+		k.counts[ino]++
+		k.paths[ino] = o.Path + " (unlinked)"
+		bad := ""
+		if err := k.ops.WriteFile(ctx, &fuseops.WriteFileOp{Inode: ino, Offset: 0, Data: o.Data}); err != nil {
+			bad = "write before unlink " + c18Err(err)
+		}
+		if err := k.ops.Unlink(ctx, &fuseops.UnlinkOp{Parent: pino, Name: name}); err != nil {
+			bad = "unlink " + c18Err(err)
+		}
+		if err := k.ops.WriteFile(ctx, &fuseops.WriteFileOp{Inode: ino, Offset: int64(len(o.Data)), Data: o.Data}); err != nil && bad == "" {
+			bad = "write after unlink " + c18Err(err)
+		}
+		rop := &fuseops.ReadFileOp{Inode: ino, Offset: 0, Dst: make([]byte, 4*len(o.Data)+8)}
+		if err := k.ops.ReadFile(ctx, rop); err != nil && bad == "" {
+			bad = "read after unlink " + c18Err(err)
+		} else if bad == "" && string(rop.Dst[:rop.BytesRead]) != string(o.Data)+string(o.Data) {
+			bad = "read after unlink returned other bytes"
+		}
+		ga := &fuseops.GetInodeAttributesOp{Inode: ino}
+		if err := k.ops.GetInodeAttributes(ctx, ga); bad == "" && (err != nil || ga.Attributes.Size != uint64(2*len(o.Data))) {
+			bad = "attributes after unlink"
+		}
+		k.forgetAll(ino)
+		if bad != "" {
+			o.Res = "orphan-bad: " + bad
+		} else {
+			o.Res = "orphan-ok"
+		}
 	case "forget":
 		// forget a cached entry that has no cached entry below it
 		var cands []fuseops.InodeID
@@ -410,7 +456,7 @@ func c18Run(cs *c18Case, r *gen.Rand) {
 		panic(fmt.Sprint("mutable mount: ", err))
 	}
 	k := &c18Kernel{ops: mfs.VerifFileSystem(), counts: map[fuseops.InodeID]int{}, paths: map[fuseops.InodeID]string{}}
-	cs.Inodes, cs.Commit, cs.CommitOk, cs.Crashed = nil, nil, false, ""
+	cs.Inodes, cs.Commit, cs.CommitOk, cs.Crashed, cs.Orphans = nil, nil, false, "", nil
 	func() {
 		defer func() {
 			if p := recover(); p != nil {
@@ -419,6 +465,9 @@ func c18Run(cs *c18Case, r *gen.Rand) {
 		}()
 		for i := range cs.Ops {
 			k.do(&cs.Ops[i], r)
+			if strings.HasPrefix(cs.Ops[i].Res, "orphan-") {
+				cs.Orphans = append(cs.Orphans, cs.Ops[i].Res == "orphan-ok")
+			}
 			if i%15 == 14 {
 				cs.Inodes = append(cs.Inodes, k.snapshot())
 			}
@@ -467,7 +516,7 @@ func c18Coq(cs *c18Case) string {
 		case "readdir":
 			op = "FReaddir " + c17Path(o.Path)
 		default:
-			continue // forgets leave the tree alone
+			continue // forgets and unlinked temporary files leave the tree alone
 		}
 		var res string
 		switch o.Res {
@@ -506,8 +555,12 @@ func c18Coq(cs *c18Case) string {
 		}
 		commit = "(Some [" + strings.Join(fs, "; ") + "])"
 	}
-	return fmt.Sprintf("{| mu_steps := [%s]; mu_inodes := [%s]; mu_commit := %s; mu_crashed := %v |}",
-		strings.Join(steps, ";\n "), strings.Join(cps, ";\n "), commit, cs.Crashed != "")
+	orph := make([]string, len(cs.Orphans))
+	for i, b := range cs.Orphans {
+		orph[i] = fmt.Sprint(b)
+	}
+	return fmt.Sprintf("{| mu_steps := [%s]; mu_inodes := [%s]; mu_commit := %s; mu_crashed := %v; mu_orphans := [%s] |}",
+		strings.Join(steps, ";\n "), strings.Join(cps, ";\n "), commit, cs.Crashed != "", strings.Join(orph, "; "))
 }
 
 func init() {
@@ -516,7 +569,7 @@ func init() {
 		c.CaseTy = "ucase"
 		c.Report = "report"
 		c.PerFile = 5
-		c.Rule = "programs of 20..60 operations over the names a, b, c, d in directories up to three deep: create, mkdir (one in eight sent without the kernel's existence check, as when two callers race), write at offsets inside and past the end, truncate, rename (onto nothing, onto files, onto empty and non-empty directories), unlink, rmdir, lookup, read, readdir through buffers of 60..4096 bytes resumed at the returned offsets, and forgets of cached leaf entries; the harness resolves paths by lookups, keeps lookup counts and applies the checks the VFS makes before calling the file system; every 15 operations and at the end the whole tree is walked for inode numbers; finally the mount is committed and the bundle downloaded; non-trivial = program with at least one successful rename or unlink and a forget, distinct by operations"
+		c.Rule = "programs of 20..60 operations over the names a, b, c, d in directories up to three deep: create, mkdir (one in eight sent without the kernel's existence check, as when two callers race), write at offsets inside and past the end, truncate, rename (onto nothing, onto files, onto empty and non-empty directories), unlink, rmdir, lookup, read, readdir through buffers of 60..4096 bytes resumed at the returned offsets, forgets of cached leaf entries, and temporary files (created, unlinked while the kernel still holds the inode, written, read, forgotten); the harness resolves paths by lookups, keeps lookup counts and applies the checks the VFS makes before calling the file system; every 15 operations and at the end the whole tree is walked for inode numbers; finally the mount is committed and the bundle downloaded; non-trivial = program with at least one successful rename or unlink and a forget, distinct by operations"
 		emit := func(cs *c18Case) {
 			key := ""
 			okMut, forgets := false, false
@@ -675,6 +728,8 @@ func init() {
 					o = c18Op{Kind: "lookup", Path: aim(true, true)}
 				case x < 17:
 					o = c18Op{Kind: "read", Path: aim(false, true), Off: r.Intn(80), Len: r.Range(1, 200)}
+				case x == 17 && r.Bool():
+					o = c18Op{Kind: "orphan", Path: fresh(), Data: r.Bytes(r.Range(1, 40))}
 				case x == 17:
 					o = c18Op{Kind: "readdir", Path: aim(true, false), Buf: []int{60, 100, 200, 4096}[r.Intn(4)]}
 					if r.Bool() {
@@ -682,6 +737,19 @@ func init() {
 					}
 				default:
 					o = c18Op{Kind: "forget", Off: r.Intn(100)}
+					if r.Chance(1, 3) { // a file with content goes away for good, then new files are made and read
+						old := fresh()
+						if _, taken := shadow[old]; !taken && parentIsDir(old) {
+							cs.Ops = append(cs.Ops, c18Op{Kind: "create", Path: old}, c18Op{Kind: "write", Path: old, Off: 0, Data: r.Bytes(r.Range(20, 90))},
+								c18Op{Kind: "unlink", Path: old}, c18Op{Kind: "forget", Off: 0}, c18Op{Kind: "forget", Off: 1}, c18Op{Kind: "forget", Off: 2})
+							nw := fresh()
+							if _, taken := shadow[nw]; !taken && parentIsDir(nw) {
+								shadow[nw] = false
+								cs.Ops = append(cs.Ops, c18Op{Kind: "create", Path: nw}, c18Op{Kind: "read", Path: nw, Off: 0, Len: 100},
+									c18Op{Kind: "write", Path: nw, Off: 0, Data: r.Bytes(r.Range(1, 10))}, c18Op{Kind: "lookup", Path: nw}, c18Op{Kind: "read", Path: nw, Off: 0, Len: 100})
+							}
+						}
+					}
 				}
 				cs.Ops = append(cs.Ops, o)
 			}
